@@ -126,6 +126,7 @@ static void ob_discrete(H<T>& h)
     h.check("C09,C17|select.index_is_a_channel", h.truth(r < C));
     if (r >= C) return;
     h.check("C09,C17|select.never_a_disabled_channel", h.truth(!wz[r]));
+    if (sym::bit_precise) return;   // the interval identity is an exact-real statement
     // interval of the cumulative normalised weights (either closure of the end points)
     T total = T();
     for (auto const& x : w) total += x;
